@@ -94,8 +94,40 @@ def _gen_pattern(rng, res):
       T += rng.choice([1, 3, 7])
     ops.append(['S', nid[0], T])
     return nid[0]
-  kind = rng.choice(['storm', 'storm', 'far', 'far', 'drain'])
-  if kind == 'storm':
+  kind = rng.choice(['storm', 'storm', 'far', 'far', 'drain', 'coincide', 'coincide'])
+  if kind == 'coincide':
+    # The clock reaches the head's deadline and, inside the very loop iteration in which the worker's
+    # timer comes due, other timer-driven code schedules / cancels first (Schedule of an earlier, by then
+    # overdue deadline; cancel of the head; schedule of an equal deadline): the worker's wait then
+    # reports "timed out" although the head has changed.
+    for _ in range(rng.randint(0, 2)):
+      S(unit * rng.randint(8, 30))
+    h = S(unit * rng.randint(3, 6))
+    T_h = ops[-1][2]
+    ops.append(['adv', t + unit])
+    t += unit
+    due = T_h if not res else -(-T_h // res) * res
+    t = due + rng.choice([0, 0, 1, unit // 2])
+    ops.append(['clk', t])
+    for _ in range(rng.randint(1, 3)):
+      k = rng.random()
+      if k < 0.6:
+        nid[0] += 1
+        ops.append(['S', nid[0], rng.choice([T_h - unit, T_h - 1, due - unit - 1, t - 1, t - 3 * unit, T_h, T_h + 1])])
+      elif k < 0.8:
+        ops.append(['C', h])
+      else:
+        ops.append(['C', rng.randint(1, nid[0])])
+    ops.append(['stept'])
+    if rng.random() < 0.5:
+      ops.append(['step', rng.randint(1, 3)])
+      nid[0] += 1
+      ops.append(['S', nid[0], t + rng.choice([-1, 1, unit])])
+    ops.append(['q'])
+    for _ in range(2):
+      t += unit * rng.randint(5, 40)
+      ops.append(['adv', t])
+  elif kind == 'storm':
     a = S(unit * rng.randint(6, 30))
     ops.append(rng.choice([['adv', t + unit], ['step', rng.randint(2, 5)], ['q']]))
     if ops[-1][0] == 'adv':
@@ -245,6 +277,8 @@ def run_case(script):
       ev.append({'e': 'C', 'id': op[1], 't': now_ms()})
     elif k == 'step':
       loop.step(op[1])
+    elif k == 'stept':
+      loop.step_timer()      # a timer that is due fires before the queued callbacks (same loop iteration)
     elif k == 'clk':
       loop.advance_to(EPOCH + op[1] / 1000.0)
     elif k == 'adv':
